@@ -400,3 +400,31 @@ Proof.
   - apply Forall_dec_cols. vm_compute. reflexivity.
   - apply Forall_dec_rows. vm_compute. reflexivity.
 Qed.
+
+(* ---- audit addition (agent-c19, audit/props_C12_C15.md): the status function of C15_nonvacuous_genset (Optimal at 2, Infeasible
+   everywhere else) is NOT truthful above 2 (size 3 is feasible by padding), so it does not instantiate the solver hypotheses of
+   C15_mgs_returns_minimum* / C15_mgs_solves_when_possible / C15_mgs_always_solves(_minimum).  Here they all hold: numbers {1, 2},
+   total 3, status Infeasible below 2 and Optimal from 2 on (Optimal is true of the rows for every k >= 2 by monotonicity,
+   Infeasible for k < 2 because one element cannot be 1 and 3); conclusive everywhere; the search from lowerbound 0 tries 1, 2
+   and reports 2 *)
+From FP Require Import AuditExamples.
+Example C15_truthful_conclusive_status_exists :
+  mg_parts au_mgs = None /\ (1 <= mg_mult au_mgs)%nat /\ mgs_domain au_mgs /\ (length (mg_numbers au_mgs) <= 2)%nat /\
+  (forall k, au_status k = MgOptimal -> exists a, sat a (encode_mgs au_mgs k)) /\
+  (forall k, au_status k = MgInfeasible -> forall a, ~ sat a (encode_mgs au_mgs k)) /\
+  (forall k, au_status k = MgOptimal \/ au_status k = MgInfeasible) /\
+  mgsm_loop au_status 0 2 (extra_cuts (mg_parts au_mgs)) = ([1; 2]%nat, Some 2%nat).
+Proof. exact au_mgs_truthful_status. Qed.
+Print Assumptions C15_truthful_conclusive_status_exists.
+
+(* the hypothesis `milp_equiv_b m1 m2 = true` of the two LP-comparison theorems is met by two DIFFERENT presentations of one LP
+   (reordered terms, a split coefficient, a negated row, a trivially true row): LinEquiv.milp_equiv_example *)
+Example C15_lp_comparison_accepts_a_rewritten_lp :
+  milp_equiv_b
+    {| cols := [{| cvar := V 0%N [1%N]; clb := 0%Q; cub := 1%Q; cint := true |}];
+       rows := [mkrow [(V 0%N [1%N], 1%Q); (V 0%N [2%N], 2%Q)] SLe 3%Q; mkrow [] SGe 0%Q]; obj := [(V 0%N [1%N], 1%Q)]; maximize := false |}
+    {| cols := [{| cvar := V 0%N [1%N]; clb := 0%Q; cub := (2 # 2)%Q; cint := true |}];
+       rows := [mkrow [(V 0%N [2%N], (- (1))%Q); (V 0%N [1%N], (- (1))%Q); (V 0%N [2%N], (- (1))%Q)] SGe (- (3))%Q]; obj := [(V 0%N [1%N], (1 # 2)%Q); (V 0%N [1%N], (1 # 2)%Q)]; maximize := false |}
+  = true.
+Proof. exact milp_equiv_example. Qed.
+Print Assumptions C15_lp_comparison_accepts_a_rewritten_lp.
